@@ -159,35 +159,35 @@ var Properties = map[string]PropDef{
 		Bounds:      "one transition step of one process in polarised asynchronous mode: 14 form/side combinations (send, receive, select, case with 2 branches, close, wait, cast, shift, cut, print) x every incoming data rule (SND..BRA) x labels over {l,m,n}; the duplication step for 2 providers over 3 body kinds; positive forward relaying each of SND/CLS/SEL/CST, negative forward, split and drop; the call step for 4 provider-passing conventions",
 		Assumptions: []string{"channels are FIFO queues of the capacity CreateFreshChannel asks for; a spawned goroutine runs after the step (run-to-completion)", "continuations are probes that record the process state they are resumed in and the substitutions applied to them", "context.Background() stands for the run's context (cancellation is outside the step claims); heartbeat channel given capacity 4096; logging off"},
 		Outside:     "PARTIAL: whole runs, orders across processes, causal order of prints, recursion; control messages (FWD, GC) arriving at receivers, droppable positive forwards, the non-polarised transition functions",
-		Harnesses:   []HarnessDef{{Name: "process.ZZC04Step"}, {Name: "process.ZZC04Dup"}, {Name: "process.ZZC04Forward"}, {Name: "process.ZZC04Control"}, {Name: "process.ZZC13CallCopies"}, runMenuHarness()},
+		Harnesses:   []HarnessDef{{Name: "process.ZZC04Step"}, {Name: "process.ZZC04Dup"}, {Name: "process.ZZC04Forward"}, {Name: "process.ZZC04Control"}, {Name: "process.ZZC13CallCopies"}, runMenuHarness(), structuralHarnesses()[0], structuralHarnesses()[1]},
 	},
 	"C01": {
 		ID: "C01", AssertPrefix: "C01.",
 		Bounds:      "one principal cut: channel type A of depth<=1 over K<=1 type names (quick K=0, thorough K=1), provider form P among 7, client form Q among 7, both accepted by the real typecheckForm (probes accepting), labels over {l,m,n}; executed in polarised asynchronous and synchronous mode; the same cut with one forward `fwd self c` between the two sides, typed by the real forward rule (asynchronous mode), which also exercises the FWD control message at a receiving provider",
 		Assumptions: []string{"the hypothesis is the real typechecker's verdict (vn.Assume(accepted)); the forms are then rebuilt over initialised channels and run on the engine's goroutine/channel model", "run-to-completion scheduling: the receiver blocks, the sender runs, the receiver resumes"},
 		Outside:     "PARTIAL: closed programs with more than one cut, all schedules, GOMAXPROCS, monitor, the non-polarised mode, more than one forward, duplication / drop between the two sides",
-		Harnesses:   []HarnessDef{{Name: "process.ZZC01Cut", Quick: map[string]int{"K": 0}, Thorough: map[string]int{"K": 1}}, {Name: "process.ZZC01CutFwd", Quick: map[string]int{"K": 0, "D": 1}, Thorough: map[string]int{"K": 1}}, runMenuHarness(), {Name: "zzpub.ZZRunIllTyped", Depth: 400, Loop: 3000, Sched: true}},
+		Harnesses:   []HarnessDef{{Name: "process.ZZC01Cut", Quick: map[string]int{"K": 0}, Thorough: map[string]int{"K": 1}}, {Name: "process.ZZC01CutFwd", Quick: map[string]int{"K": 0, "D": 1}, Thorough: map[string]int{"K": 1}}, runMenuHarness(), {Name: "zzpub.ZZRunIllTyped", Depth: 400, Loop: 3000, Sched: true}, structuralHarnesses()[0], structuralHarnesses()[1]},
 	},
 	"C13": {
 		ID: "C13", AssertPrefix: "C13.", RaceReplay: true,
 		Bounds:      "two sufficient conditions only: (1) every pair of the steps {CreateFreshChannel, SpawnThenTransition, terminate, ProcessCount, DeadProcessCount} executed as two threads on one RuntimeEnvironment touches the three shared counters only atomically (access log of the executor); (2) a call works on a private copy of the function body",
 		Assumptions: []string{"the executor logs every load/store/atomic operation on the watched cells with the thread that performed it; a conflict is a pair from different threads on one cell with a write and a non-atomic member", "a counterexample is confirmed by running the same two steps as real goroutines under `go1.26.8 test -race`"},
 		Outside:     "PARTIAL: the dynamic property itself (all programs x schedules), channel internals, the monitor and web server, AST ownership after cut / duplication (only the call step is checked)",
-		Harnesses:   []HarnessDef{{Name: "process.ZZC13Counters"}, {Name: "process.ZZC13CallCopies"}, runMenuHarness(), runMenuMonitorHarness()},
+		Harnesses:   []HarnessDef{{Name: "process.ZZC13Counters"}, {Name: "process.ZZC13CallCopies"}, runMenuHeavyHarness(), runMenuMonitorHarness(), structuralHarnesses()[0], structuralHarnesses()[1]},
 	},
 	"C02": {
 		ID: "C02", AssertPrefix: "C02.",
 		Bounds:      runBounds,
 		Assumptions: runAssumptions,
 		Outside:     "PARTIAL: programs outside the menu, runs that do not terminate, the heartbeat timer, GOMAXPROCS (true parallelism is covered only through the interleaving semantics), the non-polarised mode (the property speaks about the polarised modes)",
-		Harnesses:   []HarnessDef{{Name: "process.ZZC04Control"}, runMenuHarness(), runMenuUnreducedHarness()},
+		Harnesses:   []HarnessDef{{Name: "process.ZZC04Control"}, runMenuHarness(), runMenuUnreducedHarness(), structuralHarnesses()[0], structuralHarnesses()[1]},
 	},
 	"C03": {
 		ID: "C03", AssertPrefix: "C03.",
 		Bounds:      runBounds,
 		Assumptions: runAssumptions,
 		Outside:     "PARTIAL: programs outside the menu; monitor on; for programs with contraction the non-polarised mode is not compared (as the property states)",
-		Harnesses:   []HarnessDef{runMenuHarness(), runMenuUnreducedHarness()},
+		Harnesses:   []HarnessDef{runMenuHarness(), runMenuUnreducedHarness(), structuralHarnesses()[0], structuralHarnesses()[1]},
 	},
 	"C19": {
 		ID: "C19", AssertPrefix: "C19.", ReinitGlobals: true,
@@ -223,6 +223,26 @@ func runMenuUnreducedHarness() HarnessDef {
 	return h
 }
 
+// structuralHarnesses: enumerated structural programs (harness/zzpub/run.go, ZZRunStructural):
+// every sequence of L actions among split / drop / use / forward-through-a-cut applied to a
+// replicable channel, for a positive and for a negative provider.
+func structuralHarnesses() []HarnessDef {
+	mk := func(fam int) HarnessDef {
+		return HarnessDef{Name: "zzpub.ZZRunStructural", Quick: map[string]int{"L": 2, "FAMILY": fam}, Thorough: map[string]int{"L": 3}, Depth: 400, Loop: 3000, MaxPaths: 20000000, Sched: true,
+			Note: "all structural action sequences of length L over a replicable channel, three modes, every schedule"}
+	}
+	return []HarnessDef{mk(0), mk(1)}
+}
+
+// runMenuHeavyHarness: the heavy programs without a monitor (C13 runs the light ones with a
+// monitor attached, which subsumes running them without).
+func runMenuHeavyHarness() HarnessDef {
+	h := runMenuHarness()
+	h.Quick = map[string]int{"MODES": 3, "HEAVY": 1}
+	h.Note = "the heavy programs, monitor off"
+	return h
+}
+
 func runMenuMonitorHarness() HarnessDef {
 	h := runMenuHarness()
 	h.Quick = map[string]int{"MODES": 3, "MONITOR": 1, "LIGHT": 1}
@@ -231,7 +251,7 @@ func runMenuMonitorHarness() HarnessDef {
 	return h
 }
 
-var runBounds = "whole runs: each of the 46 menu programs of harness/zzpub/run.go (2-6 processes; m38 only in the thorough tier; close/wait, pair send/receive in both polarities, both choices, both shifts, cut with and without call, recursion to depth 2, positive and negative forwards and chains of two, split of a positive and of a negative provider, multi-name declaration, drop of a positive / negative / nested provider) in the three execution modes, under EVERY interleaving of the process goroutines at their channel operations (explored with sleep-set reduction; the numbers of complete and pruned interleavings are in the evidence)"
+var runBounds = "enumerated structural programs: every sequence of L (quick 2, thorough 3) actions among split / drop / use / forward-through-a-cut applied by a client to a replicable channel and the names that result, for a positive unit provider and for a negative server, in the three modes under every interleaving; whole runs: each of the 46 menu programs of harness/zzpub/run.go (2-6 processes; m38 only in the thorough tier; close/wait, pair send/receive in both polarities, both choices, both shifts, cut with and without call, recursion to depth 2, positive and negative forwards and chains of two, split of a positive and of a negative provider, multi-name declaration, drop of a positive / negative / nested provider) in the three execution modes, under EVERY interleaving of the process goroutines at their channel operations (explored with sleep-set reduction; the numbers of complete and pruned interleavings are in the evidence)"
 
 var runAssumptions = []string{
 	"schedule choices are explored by forking the executor at every visible operation (channel send / receive / select / close); they are not encoded into the solver. The code between two visible operations of one goroutine is executed atomically, which is sound for race-free code; the happens-before monitor (C13) checks that assumption on every explored path",
